@@ -183,6 +183,10 @@ pub fn continue_event(data: &[u8], sh: bool, sched: &[Resp], is_async: bool) -> 
 }
 /// the same through read_message (parse included); results projected like slice parse results
 pub fn message_session(data: &[u8], sh: bool, sched: &[Resp], is_async: bool, cfg: Option<&DltFilterConfig>) -> Vec<J> {
+    message_session_cls(data, sh, sched, is_async, cfg, false)
+}
+/// `with_class`: the terminal error carries its class (C08: "an error of the same class" - also for read_message)
+pub fn message_session_cls(data: &[u8], sh: bool, sched: &[Resp], is_async: bool, cfg: Option<&DltFilterConfig>, with_class: bool) -> Vec<J> {
     let log = Rc::new(RefCell::new(vec![]));
     let script = Script { data: data.to_vec(), pos: 0, sched: sched.to_vec(), i: 0, log: log.clone() };
     let processed: Option<ProcessedDltFilterConfig> = match slice::conv_opt(cfg) { Ok(p) => p, Err(()) => return vec![json!({"v": "panic"})] };
@@ -200,7 +204,7 @@ pub fn message_session(data: &[u8], sh: bool, sched: &[Resp], is_async: bool, cf
                 match dlt_core::read::read_message(&mut rd, processed.as_ref()) {
                     Ok(Some(pm)) => out.push(proj_pm(pm)),
                     Ok(None) => { out.push(json!({"v": "eos"})); break; }
-                    Err(e) => { out.push(json!({"v": class(&e)})); break; }
+                    Err(e) => { out.push(if with_class { json!({"v": class(&e), "cls": err_class(&e)}) } else { json!({"v": class(&e)}) }); break; }
                 }
             }
         } else {
@@ -210,7 +214,7 @@ pub fn message_session(data: &[u8], sh: bool, sched: &[Resp], is_async: bool, cf
                     match dlt_core::stream::read_message(&mut rd, processed.as_ref()).await {
                         Ok(Some(pm)) => out.push(proj_pm(pm)),
                         Ok(None) => { out.push(json!({"v": "eos"})); break; }
-                        Err(e) => { out.push(json!({"v": class(&e)})); break; }
+                        Err(e) => { out.push(if with_class { json!({"v": class(&e), "cls": err_class(&e)}) } else { json!({"v": class(&e)}) }); break; }
                     }
                 }
             });
@@ -263,8 +267,8 @@ pub fn pair_event(data: &[u8], sh: bool, sched: &[Resp]) -> J {
 pub fn pair_event_with(data: &[u8], sh: bool, sched: &[Resp], cap: Option<usize>, cfg: Option<&DltFilterConfig>) -> J {
     let (bl, _) = slice_session(data, sh, sched, false, cap);
     let (al, _) = slice_session(data, sh, sched, true, cap);
-    let bm = message_session(data, sh, sched, false, cfg);
-    let am = message_session(data, sh, sched, true, cfg);
+    let bm = message_session_cls(data, sh, sched, false, cfg, true);
+    let am = message_session_cls(data, sh, sched, true, cfg, true);
     json!({"op": "pair", "sh": sh, "cap": cap.unwrap_or(0), "flt": proj::opt(&cfg, |c| proj::filter_config(c)), "stream": proj::bytes(data), "sched": sched_json(sched), "blog": bl, "alog": al, "bm": bm, "am": am})
 }
 
@@ -380,6 +384,20 @@ pub fn random_sched(r: &mut Rng) -> Vec<Resp> {
     }).collect()
 }
 
+/// ... or, one time in four, a short pattern of fragment sizes and retries repeated until the whole stream has been handed out (so that the
+/// third, fourth ... message of a stream is reached by short and interrupted reads too); fragment sizes grow with the stream so that
+/// a log stays below about 1500 source reads
+pub fn sched_for(r: &mut Rng, len: usize) -> Vec<Resp> {
+    if !r.one_in(4) || len == 0 { return random_sched(r); }
+    let unit = 1 + len / 700;
+    let p = 1 + r.below(5) as usize;
+    let pat: Vec<Resp> = (0..p).map(|_| match r.below(5) { 0 => Resp::Retry, 1 => Resp::Bytes(unit), _ => Resp::Bytes(unit * (1 + r.below(7) as usize)) }).collect();
+    let per: usize = pat.iter().map(|x| match x { Resp::Bytes(k) => *k, Resp::Retry => 0 }).sum();
+    if per == 0 { return random_sched(r); }
+    let reps = len / per + 2;
+    (0..reps).flat_map(|_| pat.clone()).collect()
+}
+
 pub fn record(mode: &str, seed: u64, n: usize, out: &mut Out) {
     let mut r = Rng::new(seed);
     match mode {
@@ -388,7 +406,7 @@ pub fn record(mode: &str, seed: u64, n: usize, out: &mut Out) {
             for i in 0..n {
                 let sh = r.coin();
                 let data = if i % 40 == 13 { special_stream(&mut r, sh) } else if i % 8 == 5 { hostile_stream(&mut r, sh) } else if i % 16 == 3 { pow2_stream(&mut r, sh) } else { random_stream(&mut r, sh) };
-                let sched = random_sched(&mut r);
+                let sched = sched_for(&mut r, data.len());
                 let cfg = if i % 3 == 0 { Some(slice::random_filter(&mut r, None)) } else { None };
                 // the largest message any header position of this stream could declare: small capacities are only legitimate above it
                 let o = if sh { 16 } else { 0 };
@@ -442,7 +460,7 @@ pub fn record(mode: &str, seed: u64, n: usize, out: &mut Out) {
                     data.extend(gen::ser(&gen::message(&mut r, &MsgOpts { storage: Some(sh), big: 6, max_args: 1 })));
                     data.extend(gen::ser(&gen::message(&mut r, &MsgOpts { storage: Some(sh), big: 6, max_args: 1 })));
                 }
-                let sched = random_sched(&mut r);
+                let sched = sched_for(&mut r, data.len());
                 out.calls += 2;
                 out.emit(continue_event(&data, sh, &sched, false), data.len() > 8);
                 out.emit(continue_event(&data, sh, &sched, true), data.len() > 8);
@@ -453,7 +471,7 @@ pub fn record(mode: &str, seed: u64, n: usize, out: &mut Out) {
             for i in 0..n {
                 let sh = r.coin();
                 let data = if i % 40 == 13 { special_stream(&mut r, sh) } else if i % 8 == 5 { hostile_stream(&mut r, sh) } else if i % 16 == 3 { pow2_stream(&mut r, sh) } else { random_stream(&mut r, sh) };
-                let sched = random_sched(&mut r);
+                let sched = sched_for(&mut r, data.len());
                 out.calls += 4;
                 // every third pair with a filter, two in five with explicit capacities (as in the sessions of mode "blocking")
                 let cfg = if i % 3 == 0 { Some(slice::random_filter(&mut r, None)) } else { None };
